@@ -19,9 +19,10 @@ package configuration
 //@   ensures {C04,C10} resync-writes-no-values: cfgValueWrites == old(cfgValueWrites) && cfgCreates == old(cfgCreates) && cfgStatusWrites <= old(cfgStatusWrites) + 1
 //@   ensures {C04,C10} resync-keeps-indexes: cfgStatusWrites > old(cfgStatusWrites) ==> writtenCfgProposed == readCfgProposed && writtenCfgCommitted == readCfgCommitted && writtenCfgApplied == readCfgApplied && writtenCfgIndex == readCfgIndex && writtenCfgTerm == readCfgTerm && writtenCfgMaster == readCfgMaster
 //@   ensures {C04,C10} push-only-while-synchronizing: deviceSetCalls > old(deviceSetCalls) ==> readCfgState == configapi.ConfigurationStatus_SYNCHRONIZING && readCfgMaster != "" && readCfgApplied != 0
+//@   ensures {C10} push-goes-over-the-master-connection: deviceSetCalls > old(deviceSetCalls) ==> lastSetConnID == readCfgMaster
 //@   ensures {C10} push-carries-term: deviceSetCalls > old(deviceSetCalls) ==> lastSetHasArbitration && lastSetElectionLow == readCfgTerm && lastSetElectionHigh == 0
 //@   ensures {C04,C10} term-adopted-after-push: cfgStatusWrites > old(cfgStatusWrites) && writtenCfgAppliedTerm != readCfgAppliedTerm ==> writtenCfgAppliedTerm == readCfgTerm && writtenCfgState == configapi.ConfigurationStatus_SYNCHRONIZED && readCfgState == configapi.ConfigurationStatus_SYNCHRONIZING && deviceSetFailures == old(deviceSetFailures)
 //@   ensures {C04,C10} synchronized-only-after-clean-push: cfgStatusWrites > old(cfgStatusWrites) && writtenCfgState == configapi.ConfigurationStatus_SYNCHRONIZED && readCfgState != configapi.ConfigurationStatus_SYNCHRONIZED ==> readCfgState == configapi.ConfigurationStatus_SYNCHRONIZING && readCfgMaster != "" && deviceSetFailures == old(deviceSetFailures) && writtenCfgAppliedTerm == readCfgTerm
 //@   ensures {C04} stale-term-starts-resync: cfgStatusWrites > old(cfgStatusWrites) && readCfgState != configapi.ConfigurationStatus_SYNCHRONIZING && writtenCfgState != configapi.ConfigurationStatus_PERSISTED ==> writtenCfgState == configapi.ConfigurationStatus_SYNCHRONIZING && readCfgTerm > readCfgAppliedTerm && writtenCfgAppliedTerm == readCfgAppliedTerm
-//@   loop 2 invariant deviceSetFailures == old(deviceSetFailures) && cfgStatusWrites == old(cfgStatusWrites) && cfgValueWrites == old(cfgValueWrites) && cfgCreates == old(cfgCreates) && (deviceSetCalls > old(deviceSetCalls) ==> lastSetHasArbitration && lastSetElectionLow == readCfgTerm && lastSetElectionHigh == 0) && deviceSetCalls >= old(deviceSetCalls)
+//@   loop 2 invariant deviceSetFailures == old(deviceSetFailures) && cfgStatusWrites == old(cfgStatusWrites) && cfgValueWrites == old(cfgValueWrites) && cfgCreates == old(cfgCreates) && (deviceSetCalls > old(deviceSetCalls) ==> lastSetHasArbitration && lastSetElectionLow == readCfgTerm && lastSetElectionHigh == 0 && lastSetConnID == readCfgMaster) && deviceSetCalls >= old(deviceSetCalls)
 //@   loop 1 invariant deviceSetFailures == old(deviceSetFailures) && cfgStatusWrites == old(cfgStatusWrites) && cfgValueWrites == old(cfgValueWrites) && cfgCreates == old(cfgCreates) && deviceSetCalls == old(deviceSetCalls)
